@@ -302,7 +302,17 @@ func runMixedProp(c *fw.Ctx, prop string) {
 	}}
 	switch prop {
 	case "C02":
-		e.Monitors = append(e.Monitors, NewSupplyMonitor(e), stat)
+		// the supply a client is served (the enterprise endpoints replace the bank's) must be the
+		// recorded one for every denomination other than the native: checked at every 4th boundary
+		sq := NewSupplyQueriesMonitor(e)
+		inner := sq.AfterBlock
+		nb := 0
+		sq.AfterBlock = func(e *Env, o *lab.Obs) {
+			if nb++; nb%4 == 0 {
+				inner(e, o)
+			}
+		}
+		e.Monitors = append(e.Monitors, NewSupplyMonitor(e), stat, sq)
 	case "C04":
 		e.Monitors = append(e.Monitors, NewLockedBooksMonitor(e), stat)
 	case "C05":
